@@ -42,12 +42,12 @@ impl DisjointSetUnion {
     }
 
     fn root(&mut self, x: usize) -> usize {
-        let mut parent = x;
-        while parent != self.parents[x] {
+        let mut x = x;
+        while x != self.parents[x] {
             self.parents[x] = self.parents[self.parents[x]]; //path compression
-            parent = self.parents[x];
+            x = self.parents[x];
         }
-        parent
+        x
     }
 }
 
